@@ -619,3 +619,7 @@ V("c08b-preserving-T-attribute", "C08", "silent",
   (GENSTEPS, "    state._density_matrix = operator @ state._density_matrix @ operator.transpose()\n", "    state._density_matrix = operator @ state._density_matrix @ operator.T\n", 2))
 V("c19d-qubit-position-in-instruction", "C19", {"rule": "C19d", "contains": "instruction-local"},
   (DR, "        qubit_indices = [qc.find_bit(q).index for q in instr_qiskit.qubits]", "        qubit_indices = [instr_qiskit.qubits.index(q) for q in instr_qiskit.qubits]"))
+V("c04d-pivot-tolerance", "C04", {"rule": "C04d", "contains": "floating-threshold"},
+  ("src/pfaffian.cpp", "        if(element != 0) {", "        if(std::abs(element) > 1e-12) {"))
+V("c04d-preserving-exact-test-rewritten", "C04", "silent",
+  ("src/pfaffian.cpp", "        if(element != 0) {", "        if(!(element == 0)) {"))
